@@ -185,9 +185,9 @@ def check(prop, tier, replay=None):
     for j in res["json"]:
         vecs.setdefault(canon(j["opts"]), j)
     vecs = list(vecs.values())
-    if tier == "thorough" and len(vecs) > 2500:
+    if tier == "thorough" and len(vecs) > 12000:
         rng.shuffle(vecs)
-        vecs = vecs[:2500]
+        vecs = vecs[:12000]
     t0 = time.time()
     jobs, metas, datas = [], [], []
     for i, v in enumerate(vecs):
@@ -313,7 +313,7 @@ def check(prop, tier, replay=None):
         for dlt in (-1001, -1, 0, 1, 999, 1000, 61001):
             if base + dlt >= 0:
                 grid.add(base + dlt)
-    for _ in range(300 if tier == "quick" else 5000):
+    for _ in range(300 if tier == "quick" else 60000):
         grid.add(rng.randint(0, 360000000))
     grid = sorted(grid)
     for tfk, tf in TFS:
